@@ -72,6 +72,15 @@ def plan(tier, seed):
                     "kind": "tf_public", "k": k, "b": b,
                     "depth": min(depth, 3), "profile": {"x64": False},
                     "part": "tearfree_public"})
+  tasks.append({"name": "fd_factor", "kind": "fd_factor", "tier": tier,
+                "profile": {"x64": True}, "part": "ds_fd_factor"})
+  for b in [1.0, 0.5]:
+    tasks.append({"name": "ds_public/4x5x4/k1/b%s" % b, "kind": "ds_public",
+                  "k": 1, "b": b, "shape": [4, 5, 4], "depth": 2,
+                  "profile": {"x64": False}, "part": "ds_public"})
+    tasks.append({"name": "tf_public/3x4x3/k2/b%s" % b, "kind": "tf_public",
+                  "k": 2, "b": b, "shape": [3, 4, 3], "depth": 2,
+                  "profile": {"x64": False}, "part": "tearfree_public"})
   for alg in ["S_ADA", "ADA_FD", "FD_SON", "RFD_SON"]:
     for n, sk in [(3, 2), (4, 3)]:
       tasks.append({"name": "oco/%s/n%d/l%d" % (alg, n, sk), "kind": "oco",
@@ -351,7 +360,9 @@ def run_public(task, acc):
   import jax.numpy as jnp
   k, b = task["k"], task["b"]
   sh = tuple(task.get("shape", (6, 7)))
-  ev = grad_events(sh[0], sh[1], np.float32)
+  nd = len(sh)
+  ev = {k: v.reshape(sh) for k, v in
+        grad_events(sh[0], int(np.prod(sh[1:])), np.float32).items()}
   evs = ["full", "r1", "zero", "big"]
   params = {"c": jnp.asarray(ev["full"] * 0.5)}
   if task["kind"] == "ds_public":
@@ -371,7 +382,7 @@ def run_public(task, acc):
                                    ds._fd_low_rank_unpack(pc, k)]
         out.append((V, l, t, inv, None))
       return out
-    p = 4
+    p = 2 * nd
   else:
     from mc.props import c07
     cfg = dict(second_order_type="sketchy", sketchy_rank=k,
@@ -388,12 +399,11 @@ def run_public(task, acc):
         out.append((np.asarray(a.eigvecs), l, float(a.tail),
                     np.asarray(a.inv_eigvals), float(a.inv_tail)))
       return out
-    p = 4
+    p = 2 * nd
   upd = jax.jit(opt.update)
   orc = SketchOracle(acc, "C09|" + task["name"], case0, False)
   s0 = opt.init(params)
-  frontier = [(s0, [np.zeros((sh[0], sh[0])), np.zeros((sh[1], sh[1]))],
-               ())]
+  frontier = [(s0, [np.zeros((d, d)) for d in sh], ())]
   acc.states += 1
   for _ in range(task["depth"]):
     nxt = []
@@ -408,8 +418,8 @@ def run_public(task, acc):
         h2 = hist + (e,)
         sk1 = sketches(s2)
         C2 = []
-        for ax in range(2):
-          G = (g if ax == 0 else g.T).astype(np.float64)
+        for ax in range(nd):
+          G = np.moveaxis(g, ax, 0).reshape(sh[ax], -1).astype(np.float64)
           Cn = b * Cs[ax] + G @ G.T
           C2.append(Cn)
           V, l, t, inv, it = sk1[ax]
@@ -428,6 +438,38 @@ def run_public(task, acc):
     frontier = nxt
 
 
+def run_fd_factor(task, acc):
+  """frequent_directions_update: R R^T equals the Gram matrix of the chosen
+  axis, for every axis of tensors of rank 1..4 (depth-1 contract)."""
+  import itertools
+  import jax.numpy as jnp
+  from precondition import distributed_shampoo as ds
+  dims = [2, 3, 4] if task["tier"] == "quick" else [1, 2, 3, 4, 5]
+  for rank in (1, 2, 3, 4):
+    for sh in itertools.product(dims, repeat=rank):
+      if rank == 4 and len(set(sh)) > 2:
+        continue
+      g = rng(3, "fdf", sh).randint(-8, 9, size=sh) / 4.0
+      for ax in range(rank):
+        acc.states += 1
+        acc.transitions += 1
+        acc.nontrivial += 1
+        r = np.asarray(ds.frequent_directions_update(
+            None, jnp.asarray(g), ax, 0.0, 0.0), np.float64)
+        m = np.moveaxis(g, ax, 0).reshape(sh[ax], -1)
+        want = m @ m.T
+        if r.shape != want.shape or np.max(np.abs(r @ r.T - want)) > \
+            1e-10 * max(np.max(np.abs(want)), 1.0):
+          acc.outcome("viol_factor")
+          acc.violation("C09|fd_factor|%s|ax%d" % (sh, ax),
+                        "frequent_directions_update: R R^T differs from the "
+                        "Gram matrix of axis %d for a gradient of shape %s" %
+                        (ax, sh), {"shape": sh, "axis": ax})
+        else:
+          acc.outcome("factor_ok")
+  acc.sample({"routine": "frequent_directions_update", "dims": dims})
+
+
 def run_task(task):
   acc = Acc(task["name"])
   try:
@@ -435,6 +477,8 @@ def run_task(task):
       run_ds_root(task, acc)
     elif task["kind"] == "tf_axis":
       run_tf_axis(task, acc)
+    elif task["kind"] == "fd_factor":
+      run_fd_factor(task, acc)
     elif task["kind"] == "oco":
       from mc.props import c16
       r = c16.run_task(task)
